@@ -22,6 +22,8 @@ def rewrite(src):
     src = re.sub(r'(?m)^import "sync"', 'import sync "go.linecorp.com/garr/vshim/vsync"', src)
     return src
 
+CHANGED_POOL = [False]
+
 def write_if_changed(path, data):
     if os.path.exists(path) and open(path).read() == data:
         return
@@ -41,9 +43,12 @@ def main(dst):
             src = rewrite(src)
             if rel == "circuit-breaker":
                 src = rewrite_cbreaker(src)
+            if rel == "worker-pool":
+                keep.add(out)        # rewritten further by chanrw below
+                continue
             write_if_changed(out, src)
             keep.add(out)
-    for name in ("vsched", "vatomic", "vsync", "vdrv", "vqueue", "vadder"):
+    for name in ("vsched", "vatomic", "vsync", "vdrv", "vqueue", "vadder", "vchan", "vcontext", "vtime"):
         for f in os.listdir(os.path.join(ROOT, "shim", name)):
             out = os.path.join(dst, "vshim", name, f)
             write_if_changed(out, open(os.path.join(ROOT, "shim", name, f)).read())
@@ -65,6 +70,27 @@ def main(dst):
     write_if_changed(os.path.join(dst, "go.mod"), gomod)
     if not os.path.exists(os.path.join(dst, "go.sum")):
         shutil.copy(os.path.join(REPO, "go.sum"), os.path.join(dst, "go.sum"))
+    # worker-pool: channels / select / go / context / timers -> cooperative runtime
+    rw = os.path.join(ROOT, "build", "bin", "chanrw")
+    src = os.path.join(ROOT, "tools", "chanrw")
+    if not os.path.exists(rw) or os.path.getmtime(rw) < os.path.getmtime(os.path.join(src, "main.go")):
+        os.makedirs(os.path.dirname(rw), exist_ok=True)
+        subprocess.run(["go", "build", "-o", rw, "."], cwd=src, env=ENV, check=True)
+    stamp = os.path.join(dst, "worker-pool", ".chanrw")
+    srcs = sorted(f for f in os.listdir(os.path.join(REPO, "worker-pool")) if f.endswith(".go") and not f.endswith("_test.go"))
+    h = hashlib.sha1()
+    for f in srcs:
+        h.update(open(os.path.join(REPO, "worker-pool", f), "rb").read())
+    h.update(open(os.path.join(src, "main.go"), "rb").read())
+    if CHANGED_POOL[0] or not os.path.exists(stamp) or open(stamp).read() != h.hexdigest():
+        # re-copy pristine (import-rewritten) sources, then rewrite
+        for f in srcs:
+            open(os.path.join(dst, "worker-pool", f), "w").write(rewrite(open(os.path.join(REPO, "worker-pool", f)).read()))
+        r = subprocess.run([rw, os.path.join(dst, "worker-pool")], capture_output=True, text=True)
+        if r.returncode != 0:
+            sys.stderr.write("chanrw failed: " + r.stdout + r.stderr)
+            sys.exit(3)
+        open(stamp, "w").write(h.hexdigest())
     # remove files that disappeared from the source
     for dp, dns, fns in os.walk(dst):
         for f in fns:
